@@ -293,6 +293,19 @@ def impl(case):
                 raise RuntimeError(f"delayed scores of two calls computed in one graph got mixed up: {both} vs {serial} + {serial_b}")
             if _deep_state(estimator) != before:
                 raise RuntimeError("estimator (or an estimator nested in it) modified")
+            # a hyper-parameter sweep: lazy scores are built for the estimator as it is NOW; the caller then re-configures the same object for
+            # the next candidate before anything is computed - the scores still belong to the configuration that was passed in
+            if est in ("trend", "moment") and not prefit:
+                lazy_c = vd.cross_val_score(estimator, cs, d_arg, weights=w_arg, cv=make_cv(cvspec), scoring=scorer_of(scoring), delayed=True)
+                saved = estimator.get_params()
+                if est == "trend":
+                    estimator.set_params(degree=(saved["degree"] + 1) % 3)
+                else:
+                    estimator.set_params(tag=saved.get("tag", 0) + 3)
+                late = [float(v) for v in dask.compute(*lazy_c, scheduler="synchronous")]
+                estimator.set_params(**saved)
+                if not same(late, serial):
+                    raise RuntimeError(f"delayed scores computed after the caller re-configured the estimator differ from its scores when passed in: {late} vs {serial}")
             if prefit and _deep_state(estimator.predict(q)) != pred0:
                 raise RuntimeError("the fitted estimator passed in predicts differently after cross-validation")
             return serial
@@ -369,8 +382,26 @@ def _splinecv(a):
             q = (cs[0] + 0.125, cs[1] - 0.25)
             if mindists is not None and float(scv.mindist_) != float(bmd) and abs(means[best] - sorted(means)[-2 if len(means) > 1 else -1]) > 1e-9 * max(1.0, abs(means[best])):
                 raise RuntimeError(f"SplineCV chose mindist {scv.mindist_} but the highest mean score belongs to mindist {bmd}, damping {bdm}")
-            return {"chosen": float(scv.damping_), "expected": float(bdm), "scores": [float(v) for v in scv.scores_], "means": means,
-                    "pred_diff": float(np.max(np.abs(scv.predict(q) - ref.predict(q)))), "scale": float(np.max(np.abs(ref.predict(q))) + 1.0)}
+            out = {"chosen": float(scv.damping_), "expected": float(bdm), "scores": [float(v) for v in scv.scores_], "means": means,
+                   "pred_diff": float(np.max(np.abs(scv.predict(q) - ref.predict(q)))), "scale": float(np.max(np.abs(ref.predict(q))) + 1.0)}
+            if len(cs[0]) >= 8:
+                # explicit force positions (fewer than the data): the cross-validated candidates AND the final model sit on them
+                fc = (cs[0][::2] + 0.0625, cs[1][::2] - 0.03125)
+                scf = vd.SplineCV(dampings=dampings, cv=cv, scoring=scoring, force_coords=fc, **mkw).fit(cs, d, w)
+                mf = []
+                for md in ([None] if mindists is None else list(mindists)):
+                    for dm in dampings:
+                        sp = vd.Spline(damping=dm, force_coords=fc) if md is None else vd.Spline(damping=dm, mindist=md, force_coords=fc)
+                        mf.append((float(np.mean(vd.cross_val_score(sp, cs, d, weights=w, cv=cv, scoring=scoring))), md, dm))
+                bf = max(range(len(mf)), key=lambda i_: (mf[i_][0], -i_))
+                reff = (vd.Spline(damping=mf[bf][2], force_coords=fc) if mf[bf][1] is None else
+                        vd.Spline(damping=mf[bf][2], mindist=mf[bf][1], force_coords=fc)).fit(cs, d, w)
+                tie = sorted(x[0] for x in mf)
+                if len(tie) < 2 or abs(tie[-1] - tie[-2]) > 1e-9 * max(1.0, abs(tie[-1])):
+                    out["forces_pred_diff"] = float(np.max(np.abs(scf.predict(q) - reff.predict(q))))
+                    out["forces_scores_diff"] = float(np.max(np.abs(np.array([x[0] for x in mf]) - np.asarray(scf.scores_, dtype=float))))
+                    out["forces_count"] = [int(np.size(scf.spline_.force_coords_[0])), int(np.size(fc[0]))]
+            return out
     return C.call(run)
 
 
@@ -407,6 +438,10 @@ def oracle(case, io):
             return f"SplineCV chose damping {r['chosen']} but the highest mean score belongs to {r['expected']}"
         if r["pred_diff"] > 1e-6 * r["scale"]:
             return "SplineCV does not predict like a Spline with the selected parameters fitted to all the data"
+        if "forces_pred_diff" in r and (r["forces_count"][0] != r["forces_count"][1] or r["forces_pred_diff"] > 1e-6 * r["scale"]
+                                        or r["forces_scores_diff"] > 1e-9 * max(1.0, max(abs(v) for v in r["means"]))):
+            return (f"SplineCV(force_coords=...): the final model has {r['forces_count'][0]} forces for {r['forces_count'][1]} given positions, its "
+                    f"predictions differ from the selected Spline on those positions by {r['forces_pred_diff']}, scores by {r['forces_scores_diff']}")
         return None
     if fn == "score":
         coords, shape2d, data, weights, scoring, est = a
